@@ -136,8 +136,17 @@ def request_nontrivial(keys):
 
 @st.composite
 def strain_fields(draw, ntv):
-    cls = draw(st.sampled_from(["generic", "two-equal", "all-equal", "near-equal"]))
+    cls = draw(st.sampled_from(["generic", "two-equal", "all-equal", "near-equal", "mirrored-columns"]))
     rows = []
+    if cls == "mirrored-columns":
+        # the strain field of one axis over the volume grid is that of another axis read backwards
+        a = draw(st.lists(st.integers(1, 24), min_size=max(ntv, 2), max_size=max(ntv, 2), unique=True))[:ntv]
+        c = draw(st.lists(st.integers(1, 24), min_size=ntv, max_size=ntv))
+        cols = [a, a[::-1], c]
+        perm = draw(st.permutations([0, 1, 2]))
+        for i in range(ntv):
+            rows.append([cols[perm[k]][i] / 8.0 for k in range(3)])
+        return cls, rows
     if cls == "near-equal":
         # pseudo-cubic / pseudo-tetragonal cells: axes that differ by 1e-4..1e-3 relative, i.e. 10-100 times the
         # scheduler's own merge tolerance (numpy.allclose, rtol 1e-5): still different tasks
